@@ -4,6 +4,7 @@ import (
 	"context"
 	"flag"
 	"fmt"
+	"github.com/herohde/morlock/pkg/board/fen"
 	"math/rand"
 	"os"
 	"strings"
@@ -77,6 +78,7 @@ func determinism(args []string) {
 	seed := fs.Int64("seed", 1, "seed")
 	n := fs.Int("n", 10, "cases")
 	path := fs.String("out", "", "output ndjson")
+	reversed := fs.Bool("reversed", false, "run the same cases once each, in reverse order (a second process whose output is appended to the first's)")
 	_ = fs.Parse(args)
 	r := rand.New(rand.NewSource(*seed))
 	w := out.Create(*path)
@@ -128,6 +130,35 @@ func determinism(args []string) {
 			}
 		}
 		cases = append(cases, detCase{spec: spec, game: g, depth: d})
+	}
+
+	// twins: a game in which the players castled, and the position it reached set up from its FEN (same
+	// position and hash, other history: nobody has castled, no last move). Heuristics that read the history
+	// must give each its own value whatever was searched before in this process.
+	lines := []string{
+		"e2e4 e7e5 g1f3 g8f6 f1c4 f8c5 e1g1 e8g8",
+		"d2d4 d7d5 c1f4 c8f5 b1c3 b8c6 d1d2 d8d7 e1c1 e8c8",
+		"e2e4 e7e5 g1f3 g8f6 f1c4 f8c5 e1g1 d7d6",
+		"e2e4 e7e5 g1f3 g8f6 f1c4 f8c5 d2d3 e8g8 a2a3",
+	}
+	for i := 0; i < 4 && i < *n; i++ {
+		g := gameT{start: "startpos", moves: strings.Fields(lines[r.Intn(len(lines))])}
+		b := shadow(g)
+		twin := gameT{start: "fen " + fen.Encode(b.Position(), b.Turn(), b.NoProgress(), b.FullMoves())}
+		spec := ucih.EngineSpec{Name: []string{"turochamp", "sargon", "bernstein", "turochamp"}[i], Seed: int64(r.Intn(3))}
+		d := 1 + r.Intn(2)
+		cases = append(cases, detCase{spec: spec, game: g, depth: d}, detCase{spec: spec, game: twin, depth: d})
+	}
+
+	if *reversed {
+		for i := len(cases) - 1; i >= 0; i-- {
+			e, _ := ucih.Build(ctx, cases[i].spec)
+			if setup(ctx, e, cases[i].game) {
+				run(e, cases[i], "other-process-reversed-order", false)
+			}
+		}
+		w.Close()
+		return
 	}
 
 	var kept []detCase
